@@ -301,6 +301,19 @@ theorem styles_rstripBeforeBreak : ∀ (l : List INode), styles (rstripBeforeBre
     have ih := styles_rstripBeforeBreak (b :: rest)
     split <;> simp [styles, ih]
 
+theorem styles_dropTrailingBreaks : ∀ (l : List INode), styles (dropTrailingBreaks l) = styles l
+  | [] => rfl
+  | n :: ns => by
+    have ih := styles_dropTrailingBreaks ns
+    unfold dropTrailingBreaks
+    by_cases h : ((dropTrailingBreaks ns).isEmpty && n.kind == .brk) = true
+    · simp only [h, if_true]
+      simp only [Bool.and_eq_true, List.isEmpty_iff, beq_iff_eq] at h
+      rw [h.1] at ih
+      simp [styles, h.2, ← ih]
+    · simp only [h, if_false]
+      simp [styles, ih]
+
 theorem pipeline_balanced (l3 : List INode) (a3 : AltFrom true (styles l3)) :
     Balanced (styles (removeOffOn none (removeOnOff none (ensureFinalClose (closeBeforeRepos false (0, 0) l3))))) := by
   have a4 : AltFrom true (styles (closeBeforeRepos false (0, 0) l3)) := by
@@ -319,7 +332,7 @@ theorem pipeline_balanced (l3 : List INode) (a3 : AltFrom true (styles l3)) :
     the italics switches alternate, begin with "on", and every "on" is closed (none stays open at the end). -/
 theorem formatItalics_balanced (coll : List INode) : Balanced (styles (formatItalics coll)) := by
   unfold formatItalics
-  rw [styles_rstripBeforeBreak]
+  rw [styles_rstripBeforeBreak, styles_dropTrailingBreaks]
   exact pipeline_balanced _ (skipRedundant_alt none _)
 
 end PcVerif.Scc
